@@ -10,8 +10,8 @@ abbrev Str := SigModel.Promql.Str
 theorem cutLabel_append (n p : Str) : cutLabel n (n ++ p) = p := by
   simp [cutLabel]
 
-theorem partnerId_append (ln rn p : Str) : partnerId ln rn (ln ++ p) = rn ++ p := by
-  simp [partnerId, cutLabel]
+theorem labelSetOf_append (n p : Str) : labelSetOf n (n ++ p) = canonLabel p := by
+  simp [labelSetOf, cutLabel]
 
 theorem hasId_iff (v : Vec) (id : Str) : hasId v id = true ↔ id ∈ v.map (·.1) := by
   simp only [hasId, lookupPts, Option.isSome_map, List.find?_isSome, List.mem_map]
@@ -31,40 +31,132 @@ theorem map_fst_filterMap {α β : Type} (l : List (Str × α)) (c : Str → Boo
 /-- the ids the left pass keeps -/
 theorem outIds_leftPass (op : Op) (b : Bool) (l r : Res) :
     outIds (leftPass op b l r) =
-      (vecIds l).filter (fun lid => hasId r.series (partnerId l.name r.name lid) || op == .or || op == .unless) := by
+      (vecIds l).filter (fun lid => hasId r.series (partnerId l.name (rKey r) lid) || op == .or || op == .unless) := by
   simp only [outIds, leftPass, vecIds]
   exact map_fst_filterMap l.series
-    (fun lid => hasId r.series (partnerId l.name r.name lid) || op == .or || op == .unless) _
+    (fun lid => hasId r.series (partnerId l.name (rKey r) lid) || op == .or || op == .unless) _
 
-/-- arithmetic, comparison and `and`: an id is in the answer iff it is a left id whose partner id is a right id -/
-theorem mem_binop_match (op : Op) (b : Bool) (l r : Res) (hop : op ≠ .or ∧ op ≠ .unless) (id : Str) :
-    id ∈ outIds (binop op b l r) ↔ id ∈ vecIds l ∧ partnerId l.name r.name id ∈ vecIds r := by
+/-- picking the smallest element of a list: some element of the list, `none` only for the empty list -/
+theorem foldl_min_mem (xs : List Str) (acc : Option Str) :
+    let res := xs.foldl (fun (acc : Option Str) rid => match acc with
+      | none => some rid
+      | some p => if strLe p rid then some p else some rid) acc
+    (∀ y, res = some y → y ∈ xs ∨ acc = some y) ∧ (res = none → xs = [] ∧ acc = none) := by
+  induction xs generalizing acc with
+  | nil => simp
+  | cons x t ih =>
+    simp only [List.foldl_cons]
+    cases acc with
+    | none =>
+      have := ih (some x)
+      constructor
+      · intro y hy
+        rcases this.1 y hy with h | h
+        · exact Or.inl (List.mem_cons_of_mem _ h)
+        · exact Or.inl (by simp [Option.some.inj h])
+      · intro hn
+        have := this.2 hn
+        simp at this
+    | some p =>
+      by_cases hp : strLe p x = true
+      · simp only [hp, if_true]
+        have := ih (some p)
+        constructor
+        · intro y hy
+          rcases this.1 y hy with h | h
+          · exact Or.inl (List.mem_cons_of_mem _ h)
+          · exact Or.inr h
+        · intro hn
+          have := this.2 hn
+          simp at this
+      · simp only [hp]
+        have := ih (some x)
+        constructor
+        · intro y hy
+          rcases this.1 y hy with h | h
+          · exact Or.inl (List.mem_cons_of_mem _ h)
+          · exact Or.inl (by simp [Option.some.inj h])
+        · intro hn
+          have := this.2 hn
+          simp at this
+
+/-- a partner is a right id, long enough, whose label part has the canonical form asked for -/
+theorem partnerOf_some (r : Str × List Str) (c rid : Str) (h : partnerOf r c = some rid) :
+    rid ∈ r.2 ∧ rid.length ≥ r.1.length ∧ canonLabel (cutLabel r.1 rid) = c := by
+  unfold partnerOf at h
+  have := (foldl_min_mem _ none).1 rid h
+  rcases this with hm | hm
+  · simp only [List.mem_filter, Bool.and_eq_true, decide_eq_true_eq, beq_iff_eq] at hm
+    exact ⟨hm.1, hm.2.1, hm.2.2⟩
+  · cases hm
+
+/-- … and there is one whenever some right id qualifies -/
+theorem partnerOf_isSome (r : Str × List Str) (c rid : Str) (hm : rid ∈ r.2) (hl : rid.length ≥ r.1.length)
+    (hc : canonLabel (cutLabel r.1 rid) = c) : (partnerOf r c).isSome = true := by
+  cases h : partnerOf r c with
+  | some _ => rfl
+  | none =>
+    unfold partnerOf at h
+    have := ((foldl_min_mem _ none).2 h).1
+    have hmem : rid ∈ r.2.filter (fun rid => decide (rid.length ≥ r.1.length) && canonLabel (cutLabel r.1 rid) == c) := by
+      simp [List.mem_filter, hm, hl, hc]
+    rw [this] at hmem
+    cases hmem
+
+/-- arithmetic, comparison and `and` (no right id is the empty string): an id is in the answer iff it is a left id,
+long enough, and some right id (long enough) has a label part with the same canonical form -/
+theorem mem_binop_match (op : Op) (b : Bool) (l r : Res) (hop : op ≠ .or ∧ op ≠ .unless)
+    (hne : ([] : Str) ∉ vecIds r) (id : Str) :
+    id ∈ outIds (binop op b l r) ↔
+      id ∈ vecIds l ∧ id.length ≥ l.name.length ∧
+        ∃ rid ∈ vecIds r, rid.length ≥ r.name.length ∧ canonLabel (cutLabel r.name rid) = canonLabel (cutLabel l.name id) := by
   have e : binop op b l r = leftPass op b l r := by
     cases op <;> simp_all [binop]
   rw [e, outIds_leftPass]
-  simp only [List.mem_filter, Bool.or_eq_true, beq_iff_eq, hop.1, hop.2, or_false, hasId_iff, vecIds]
+  simp only [List.mem_filter, Bool.or_eq_true, beq_iff_eq, hop.1, hop.2, or_false, hasId_iff]
+  constructor
+  · rintro ⟨hid, hp⟩
+    refine ⟨hid, ?_⟩
+    unfold partnerId at hp
+    by_cases hl : id.length ≥ l.name.length
+    · simp only [hl, if_true] at hp
+      cases hpo : partnerOf (rKey r) (canonLabel (cutLabel l.name id)) with
+      | none =>
+        rw [hpo] at hp
+        exact absurd hp hne
+      | some rid =>
+        have := partnerOf_some (rKey r) _ rid hpo
+        exact ⟨hl, rid, this.1, this.2.1, this.2.2⟩
+    · simp only [hl, if_false] at hp
+      exact absurd hp hne
+  · rintro ⟨hid, hl, rid, hrm, hrl, hc⟩
+    refine ⟨hid, ?_⟩
+    unfold partnerId
+    simp only [hl, if_true]
+    have hs := partnerOf_isSome (rKey r) _ rid hrm hrl hc
+    cases hpo : partnerOf (rKey r) (canonLabel (cutLabel l.name id)) with
+    | none => rw [hpo] at hs; cases hs
+    | some rid' => exact (partnerOf_some (rKey r) _ rid' hpo).1
 
-/-- `unless`: the left ids that the right pass does not delete -/
+/-- `unless`: the left ids whose canonical label set no right id has -/
 theorem mem_binop_unless (b : Bool) (l r : Res) (id : Str) :
-    id ∈ outIds (binop .unless b l r) ↔ id ∈ vecIds l ∧ id ∉ unlessDeleted l r := by
+    id ∈ outIds (binop .unless b l r) ↔ id ∈ vecIds l ∧ labelSetOf l.name id ∉ rightLabelSets r := by
   have e : outIds (binop .unless b l r) =
-      (outIds (leftPass .unless b l r)).filter (fun i => !(unlessDeleted l r).contains i) := by
+      (outIds (leftPass .unless b l r)).filter (fun i => !(rightLabelSets r).contains (labelSetOf l.name i)) := by
     simp only [binop, outIds, List.filter_map]
     rfl
   rw [e, outIds_leftPass]
   simp [List.mem_filter]
 
-/-- under well-formed ids, `unless` deletes exactly the left ids whose partner exists -/
-theorem mem_unlessDeleted (l r : Res) (hr : wellFormed r) (p : Str) :
-    l.name ++ p ∈ unlessDeleted l r ↔ r.name ++ p ∈ vecIds r := by
-  simp only [unlessDeleted, List.mem_map, vecIds]
+/-- under well-formed right ids, the canonical label sets of the right vector are those of its label parts -/
+theorem mem_rightLabelSets (r : Res) (hr : wellFormed r) (c : Str) :
+    c ∈ rightLabelSets r ↔ ∃ q, r.name ++ q ∈ vecIds r ∧ canonLabel q = c := by
+  simp only [rightLabelSets, List.mem_map, vecIds]
   constructor
   · rintro ⟨e, he, h⟩
-    have h' := List.append_cancel_left h
     obtain ⟨q, hq⟩ := hr e.1 (by simp only [vecIds, List.mem_map]; exact ⟨e, he, rfl⟩)
-    rw [hq, cutLabel_append] at h'
-    exact ⟨e, he, by rw [hq, h']⟩
-  · rintro ⟨e, he, h⟩
-    exact ⟨e, he, by rw [h, cutLabel_append]⟩
+    exact ⟨q, ⟨e, he, hq⟩, by rw [← h, hq, labelSetOf_append]⟩
+  · rintro ⟨q, ⟨e, he, h⟩, hc⟩
+    exact ⟨e, he, by rw [h, labelSetOf_append, hc]⟩
 
 end SigModel.Lemmas.C09bin
